@@ -118,9 +118,8 @@ func c01Build(existing int, statuses []pod_status.PodStatus, newTasks int) *c01W
 		t := mk(name, st, "n1")
 		j := vs.NewJob("job-"+name, "q0", true, 0, 1, vm, t)
 		jobs[j.UID] = j
-		if err := w.node.AddTask(t); err != nil {
-			panic(err)
-		}
+		// the snapshot's way of charging pods to their node (it skips pods that do not occupy it)
+		w.node.AddTasksToNode([]*pod_info.PodInfo{t}, map[common_info.PodID]*pod_info.PodInfo{})
 	}
 	for i := 0; i < newTasks; i++ {
 		name := vs.Name("new", i)
@@ -153,10 +152,10 @@ func (w *c01World) occupied() float64 {
 	return sum
 }
 
-var c01Statuses = []pod_status.PodStatus{pod_status.Running, pod_status.Releasing, pod_status.Allocated, pod_status.Pipelined}
+var c01Statuses = []pod_status.PodStatus{pod_status.Running, pod_status.Releasing, pod_status.Allocated, pod_status.Pipelined, pod_status.Bound, pod_status.Binding}
 
 // VerifC01_AllocateCommit: on a node holding 0..2 pods in any mix of running / terminating /
-// allocated-this-cycle / nominated, 1..2 new tasks are placed by the real Session.FittingNode +
+// allocated-this-cycle / nominated / bound / being bound (charged the way the snapshot does), 1..2 new tasks are placed by the real Session.FittingNode +
 // allocateTaskToNode and the statement is committed against a cache whose Bind may fail.
 // BOUND: 1 node; 0..2 existing pods; 1 new task (quick) / 2 new tasks in sequence (thorough); one symbolic dimension (milli-cpu in [10, 2^30), whole GPUs < 2^10, pod slots < 2^10 with regular pods, pod slots with best-effort pods); at most one Bind fault
 // ASSUME: pre-state reachable: idle >= 0 and idle + releasing >= 0 in the symbolic dimension
